@@ -238,7 +238,7 @@ def run(ctx: Ctx) -> RuleResult:
     # Earley: expected sets are computed from the scan buffer; the rejection happens exactly when nothing survives the step
     from ..exprs import path_conditions, bool_relation
     for fq, cls, want in (('lark.parsers.earley:Parser._parse.scan', 'UnexpectedToken', 'not next_set and not next_to_scan'),
-                          ('lark.parsers.xearley:Parser._parse.scan', 'UnexpectedCharacters', 'not next_set and not delayed_matches and not next_to_scan')):
+                          ('lark.parsers.xearley:Parser._parse.scan', 'UnexpectedCharacters', 'not next_set and not delayed_matches and not next_to_scan and not carried_solutions')):
         f = repo.func(fq)
         rs = [n for n in f.body_nodes() if isinstance(n, ast.Raise) and cls in norm(n.exc)]
         ok = len(rs) == 1
